@@ -40,6 +40,7 @@ import (
 	"github.com/DemoHn/Zn/pkg/syntax/zh"
 
 	"verif/engine/mc"
+	"verif/engine/zn"
 )
 
 // ------------------------------------------------------------------ cases
@@ -1202,6 +1203,106 @@ func c04Run(c *mc.Ctx) {
 		base += total
 		c.Bound(fmt.Sprintf("%s_%s_len_%d_alphabet_%d", lv.part, lv.pass, lv.n, b), "complete")
 	}
+	c04Contexts(c)
+}
+
+// ------------------------------------------------------------------ sub-check 2c: one identifier, every place it can stand in
+
+// c04CtxAlpha / c04CtxFixed: the identifiers (every string <= 4 over the alphabet that the lexer
+// reads as ONE identifier token, plus a few longer ones).
+var c04CtxAlpha = []rune{'1', '2', '.', 'e', 'k'}
+var c04CtxFixed = []string{"128kg", "2.3.5", "1e5", "1e+5", "25.8km", "9.", "12", "1.50", "k12", "2*10^3"}
+
+// the places: s is the only identifier-shaped thing that varies
+var c04CtxForms = []struct{ name, pre, post string }{
+	{"value", "输出 ", ""},
+	{"declared-value", "令甲 = ", "\n输出 甲"},
+	{"list-item", "输出 【", "】#1"},
+	{"call-argument", "如何取？\n    输入值\n    输出 值\n输出 （取：", "）"},
+	{"dictionary-key", "令表 = 【", " = 5】\n输出 7"},
+	{"index", "令表 = 【5，6，7】\n输出 表#", ""},
+}
+
+// c04Contexts: whether an identifier is a number, a name or malformed does not depend on where
+// it stands.  exec.MatchIDType (checked against the documented form above) classifies s; every
+// place then has to agree: a malformed identifier is refused with the same error everywhere
+// (never silently taken as a name), a number is accepted.
+func c04Contexts(c *mc.Ctx) {
+	var ids []string
+	var rec func(cur []rune, n int)
+	rec = func(cur []rune, n int) {
+		if len(cur) > 0 {
+			ids = append(ids, string(cur))
+		}
+		if n == 0 {
+			return
+		}
+		for _, ch := range c04CtxAlpha {
+			rec(append(cur, ch), n-1)
+		}
+	}
+	rec(nil, 4)
+	ids = append(ids, c04CtxFixed...)
+	nc := &c04NumCtx{id: new(syntax.ID)}
+	base := int64(1) << 56
+	c.Describe = func(idx int64) json.RawMessage {
+		k := int(idx - base)
+		return mc.J(c04Case{Part: "ctx", Source: ids[k/len(c04CtxForms)], Pass: c04CtxForms[k%len(c04CtxForms)].name})
+	}
+	for k := 0; k < len(ids)*len(c04CtxForms); k++ {
+		idx := base + int64(k)
+		if !c.Mine(idx) {
+			continue
+		}
+		c.CaseIdx(idx)
+		if f := c04CheckCtx(ids[k/len(c04CtxForms)], k%len(c04CtxForms), nc); f != nil {
+			c.Fail(*f)
+		}
+		c.Eval(true)
+		c.Stat("identifier_in_context_cases", 1)
+	}
+	c.Bound("identifier_contexts", fmt.Sprintf("complete: %d identifiers x %d places", len(ids), len(c04CtxForms)))
+}
+
+func c04CheckCtx(id string, form int, nc *c04NumCtx) *mc.Failure {
+	toks, lexErr, perr := c04Lex([]rune(id), nil)
+	if lexErr != "" || perr != "" || len(toks) != 2 || toks[0].T != zh.TypeIdentifier || toks[0].Lit != id {
+		return nil // not one identifier token: nothing to place
+	}
+	obs, _, _, _, p2 := c04Observe([]byte(id), nc)
+	if p2 != "" || obs == c04Name {
+		return nil // names are looked up: what they hold is another matter
+	}
+	fm := c04CtxForms[form]
+	src := fm.pre + id + fm.post
+	cs := mc.J(c04Case{Part: "ctx", Source: id, Pass: fm.name})
+	got := zn.RunReal(src, nil)
+	if got.Panic != "" {
+		return &mc.Failure{Kind: "panic", Bucket: "ctx:" + fm.name, Case: cs, Observed: got.Panic}
+	}
+	base := zn.RunReal(c04CtxForms[0].pre+id, nil)
+	describe := func(o zn.Outcome) string {
+		if o.Err != nil {
+			return fmt.Sprintf("%s error %d", o.Err.Kind, o.Err.Code)
+		}
+		return "accepted"
+	}
+	switch obs {
+	case c04Reject:
+		if got.Err == nil || base.Err == nil || got.Err.Kind != base.Err.Kind || got.Err.Code != base.Err.Code {
+			return &mc.Failure{Kind: "mismatch", Bucket: "ctx:" + fm.name + ":malformed", Case: cs,
+				Expected: fmt.Sprintf("the malformed identifier %s is refused as %s refuses it (%s)", id, "输出 "+id, describe(base)), Observed: describe(got) + " in: " + src}
+		}
+	case c04Number:
+		if form == 5 {
+			return nil // a number as an index may well be out of range
+		}
+		if got.Err != nil {
+			return &mc.Failure{Kind: "mismatch", Bucket: "ctx:" + fm.name + ":number", Case: cs,
+				Expected: fmt.Sprintf("the number %s is accepted", id), Observed: describe(got) + " in: " + src}
+		}
+	}
+	return nil
 }
 
 func c04Replay(c *mc.Ctx, raw json.RawMessage) {
@@ -1229,6 +1330,14 @@ func c04Replay(c *mc.Ctx, raw json.RawMessage) {
 		if cs.Part == "idlex" && cs.CP >= 0 && cs.CP < 0x110000 {
 			if _, f := c04CheckIdLex(tab, cs.CP, &c04Bufs{}); f != nil {
 				c.Fail(*f)
+			}
+		}
+	case "ctx":
+		for i, fm := range c04CtxForms {
+			if fm.name == cs.Pass {
+				if f := c04CheckCtx(cs.Source, i, &c04NumCtx{id: new(syntax.ID)}); f != nil {
+					c.Fail(*f)
+				}
 			}
 		}
 	case "num":
